@@ -23,6 +23,14 @@ def cases(seed, tier):
         out.append({"group": "extra", "kind": ["nonlinear_loss", "chained", "nonlinear_loss_chained"][i % 3], "seed": sub_seed(seed, "c13xs", i),
                     "n": rng.choice([3, 7, 20, 40]), "holder": ["explicit", "nn", "em"][(i // 3) % 3], "fam": rng.choice(["expdecay", "sinamp", "rational"]),
                     "limits": rng.choice(["num", "t0", "t0g", "t1g"]), "loss": rng.choice(["square", "exp", "product"])})
+    # history: the integrand's object is given other tensors between the forward call and the backward pass (limits requiring grad: the
+    # boundary terms of the backward evaluate the integrand, too)
+    nl = 36 if tier == "quick" else 360
+    for i in range(nl):
+        rng = random.Random(sub_seed(seed, "c13l", i))
+        out.append({"group": "extra", "kind": ["nonlinear_loss", "chained"][i % 2], "seed": sub_seed(seed, "c13ls", i), "n": rng.choice([3, 7, 20]),
+                    "holder": "em", "fam": rng.choice(["expdecay", "sinamp", "rational"]), "limits": rng.choice(["t0g", "t1g", "t0g", "t0"]),
+                    "loss": rng.choice(["square", "exp", "product"]), "late_rebind": True})
     return out
 
 
@@ -108,12 +116,15 @@ def run_case(desc):
                 return [prefix + "p", prefix + "held[0]"]
         e = E()
         fcn, params = e.forward, ()
-    mech = "%s:%s:%s:%s" % (kind, holder, lim, desc["loss"])
+    mech = "%s:%s:%s:%s%s" % (kind, holder, lim, desc["loss"], ":late_rebind" if desc.get("late_rebind") else "")
     leaves = [a, b] + limleaves
     names = ["a", "b"] + (["xl", "xu"] if limleaves else [])
     try:
         y = quad(fcn, xl, xu, params=params, n=n)
         L = _loss(desc["loss"], y.reshape(-1))
+        if desc.get("late_rebind"):
+            e.p, e.held = p * 1.3 + 0.2, [q * 0.7]            # the same object, other tensors, BEFORE the backward pass
+            obs.count("extra_late_rebind_histories")
         g = torch.autograd.grad(L, leaves, create_graph=True, allow_unused=True)
     except Exception as e:
         obs.exc_violation("first:" + mech, e)
